@@ -56,21 +56,12 @@ func (cj *CookieJar) Get(uri *fasthttp.URI) []*fasthttp.Cookie {
 		return nil
 	}
 
-	// Hand out copies: callers may release what they get (see above)
-	cookies := make([]*fasthttp.Cookie, len(stored))
-	for i, c := range stored {
-		cookies[i] = fasthttp.AcquireCookie()
-		cookies[i].CopyTo(c)
-	}
-	return cookies
+	// These are copies already: callers may release what they get (see above)
+	return stored
 }
 
 // getByHostAndPath returns cookies stored for a specific host and path.
 func (cj *CookieJar) getByHostAndPath(host, path []byte) []*fasthttp.Cookie {
-	if cj.hostCookies == nil {
-		return nil
-	}
-
 	var (
 		cookies []*fasthttp.Cookie
 		hostStr = utils.UnsafeString(host)
@@ -118,7 +109,14 @@ func (cj *CookieJar) getCookiesByHost(host string) []*fasthttp.Cookie {
 		cj.hostCookies[utils.CopyString(host)] = cookies
 	}
 
-	return cookies
+	// Hand out copies made under the lock: responses of other requests update the stored
+	// cookies in place (parseCookiesFromResp) while this caller reads what it got.
+	out := make([]*fasthttp.Cookie, len(cookies))
+	for i, c := range cookies {
+		out[i] = fasthttp.AcquireCookie()
+		out[i].CopyTo(c)
+	}
+	return out
 }
 
 // Set stores the given cookies for the specified URI host. If a cookie key already exists,
@@ -207,6 +205,7 @@ func (cj *CookieJar) dumpCookiesToReq(req *fasthttp.Request) {
 	cookies := cj.getByHostAndPath(uri.Host(), uri.Path())
 	for _, cookie := range cookies {
 		req.Header.SetCookieBytesKV(cookie.Key(), cookie.Value())
+		fasthttp.ReleaseCookie(cookie)
 	}
 }
 
